@@ -316,10 +316,12 @@ class Engine:
         frame.qualname = name
         saved_merge = self.run.merge_depth
         self.run.merge_depth += 1
+        self.run.spec_depth += 1
         try:
             res = self.merge_block(sp.node.body, frame)
         finally:
             self.run.merge_depth = saved_merge
+            self.run.spec_depth -= 1
         if res is None:
             raise Unsupported(f"spec {name} does not return on all paths")
         if sp.ret_sort != "val":
@@ -557,6 +559,27 @@ class Engine:
         if res == z3.unknown:
             self.stats["feas_unknown"] = self.stats.get("feas_unknown", 0) + 1
             self.stats["feas_unknown_time"] = self.stats.get("feas_unknown_time", 0.0) + time.time() - t0
+        self.feas_cache[key] = (ok, list(facts), extra)
+        return ok
+
+    def feasible_strong(self, facts, extra):
+        """Second opinion for dispatch decisions: quantified definitional axioms (e-matching can
+        instantiate element-wise facts that ground unfolding cannot reach).  Only `unsat` prunes."""
+        key = ("strong", tuple(f.get_id() for f in facts), extra.get_id())
+        r = self.feas_cache.get(key)
+        if r is not None:
+            return r[0]
+        from . import axioms
+        s = z3.Solver()
+        s.set("timeout", 600)
+        for f in facts:
+            s.add(f)
+        s.add(extra)
+        names = axioms.spec_symbols(self, list(facts) + [extra])
+        for ax in axioms.spec_axioms(self, names):
+            s.add(ax)
+        ok = s.check() != z3.unsat
+        self.stats["feas_strong"] = self.stats.get("feas_strong", 0) + 1
         self.feas_cache[key] = (ok, list(facts), extra)
         return ok
 
@@ -946,8 +969,11 @@ class Engine:
             if data and len(data) < len(vals) and isinstance(frame_module_of(frame), tuple):
                 vals = data     # specifications read data attributes, never bound methods
             res = vals[-1][1]
-            for cond, v in reversed(vals[:-1]):
-                res = self.ite(cond, v, res)
+            try:
+                for cond, v in reversed(vals[:-1]):
+                    res = self.ite(cond, v, res)
+            except Unsupported as ex:
+                raise Unsupported(f"{ex} (attribute .{attr} on a value of unknown class: {[c.name for _, _, cl in live for c in (cl or [])][:8]})")
             return res
         # exec mode: try cheap merge for plain fields/properties first
         try:
@@ -1095,6 +1121,8 @@ class Engine:
         cs = z3.simplify(cond)
         if z3.is_false(cs):
             return
+        if run.spec_depth > 0:
+            return      # specifications are total: guards are the author's responsibility
         if run.merge_depth > 0 or run.merge_only:
             if run.track_exc and not run.merge_only:
                 run.merge_raises.append((z3.And(run.cond_stack + [cond]) if run.cond_stack else cond, self.ct.ext[excname]))
@@ -1488,12 +1516,14 @@ class Engine:
         frame = Frame(vars_, module=("contracts", cinfo.module))
         frame.qualname = f"{cinfo.name}.{fnode.name}"
         run.merge_depth += 1
+        run.spec_depth += 1
         saved_old = run.old_state
         run.old_state = pre_run_state
         try:
             r = self.merge_block(fnode.body, frame)
         finally:
             run.merge_depth -= 1
+            run.spec_depth -= 1
             run.old_state = saved_old
         if r is None:
             raise Unsupported(f"clause {fnode.name} of {cinfo.key} has no return")
@@ -1665,6 +1695,7 @@ class Run:
         self.inc = None
         self.deadline = None
         self.prop_depth = 0
+        self.spec_depth = 0
         self.cur_line = None
         self.modifies = ()
         self.mod_bound = {}
@@ -1708,7 +1739,7 @@ class Run:
             return
         self.facts.append(fs)
 
-    def quick_feasible(self, cond):
+    def quick_feasible(self, cond, strong=False):
         cs = z3.simplify(cond)
         if z3.is_false(cs):
             return False
@@ -1716,7 +1747,10 @@ class Run:
             cond = z3.And(self.cond_stack + [cond])
         elif z3.is_true(cs):
             return True
-        return self.eng.feasible(self.facts, cond)
+        ok = self.eng.feasible(self.facts, cond)
+        if ok and strong:
+            ok = self.eng.feasible_strong(self.facts, cond)
+        return ok
 
     def choose(self, n, conds, what):
         """Pick one of n alternatives (each with a z3 condition)."""
